@@ -241,18 +241,7 @@ func (s *pathSearch) mayReturn(call *ssa.Call, h *ssa.Function, ridx int, truth 
 				} else if fakeCut(e) {
 					continue
 				}
-				pred := phi.Block().Preds[pi]
-				cutIn := false
-				for si, sb := range pred.Succs {
-					if sb == phi.Block() && s.cutEdge(pred, si, depth) {
-						cutIn = true
-					}
-				}
-				if cutIn {
-					continue
-				}
-				term := pred.Instrs[len(pred.Instrs)-1]
-				if ok, _ := s.search(h, nil, IsInstr(term), depth); ok {
+				if s.edgeReachable(h, phi.Block().Preds[pi], phi.Block(), depth, 3) {
 					res = true
 				}
 			}
@@ -274,6 +263,57 @@ func (s *pathSearch) mayReturn(call *ssa.Call, h *ssa.Function, ridx int, truth 
 		s.mayRet[k] = 2
 	}
 	return res
+}
+
+// MayReturnBool: fn has a path from its entry, crossing no cut of q, to a return whose result #ridx can be
+// `truth`. A returned comparison (or the boolean result of a first-party helper) that can only have that truth
+// value when a cut fact holds counts as crossing the cut, as in a branch on it.
+func MayReturnBool(fn *ssa.Function, ridx int, truth bool, q PathQuery) bool {
+	s := &pathSearch{q: q, passable: map[*ssa.Call]int{}, mayRet: map[retKey]int{}}
+	saved := activeCtx
+	activeCtx = nil
+	defer func() { activeCtx = saved }()
+	return s.mayReturn(nil, fn, ridx, truth, 0)
+}
+
+// edgeReachable: some uncut path leads from the entry of h over the CFG edge pred -> blk. When pred only
+// merges a boolean phi and branches on it (short-circuit evaluation kept in a variable), the edge is taken
+// per incoming value of that phi: a constant decides the branch, a condition counts as branched on at the
+// predecessor it arrives from (the jump threading of search, applied backwards from a returned phi).
+func (s *pathSearch) edgeReachable(h *ssa.Function, pred, blk *ssa.BasicBlock, depth, fuel int) bool {
+	for si, sb := range pred.Succs {
+		if sb != blk || s.cutEdge(pred, si, depth) {
+			continue
+		}
+		if phi2, ok := phiIfBlock(pred); ok && fuel > 0 {
+			want := (si == 0) != phiIfNegated(pred)
+			for j, v2 := range phi2.Edges {
+				if bv, isConst := BoolConst(v2); isConst {
+					if bv != want {
+						continue
+					}
+				} else if s.q.CutEdge != nil {
+					fake := &ssa.BasicBlock{Instrs: []ssa.Instruction{&ssa.If{Cond: v2}}, Succs: []*ssa.BasicBlock{{}, {}}}
+					slot := 0
+					if !want {
+						slot = 1
+					}
+					if s.cutEdge(fake, slot, depth) {
+						continue
+					}
+				}
+				if s.edgeReachable(h, pred.Preds[j], pred, depth, fuel-1) {
+					return true
+				}
+			}
+			continue
+		}
+		term := pred.Instrs[len(pred.Instrs)-1]
+		if ok, _ := s.search(h, nil, IsInstr(term), depth); ok {
+			return true
+		}
+	}
+	return false
 }
 
 func (s *pathSearch) search(fn *ssa.Function, from ssa.Instruction, to func(ssa.Instruction) bool, depth int) (bool, ssa.Instruction) {
